@@ -367,7 +367,8 @@ func runBuild(c *Ctx) {
 		nlit := 0
 		if st != nil {
 			for _, ap := range appendSites(m, st.Common().Args[0]) {
-				for _, lit := range appendedStructFields(ap) {
+				for _, sl := range c.appendedStructFieldLits(ap) {
+					lit := sl.fields
 					if _, isConst := core.ConstString(lit["Name"]); isConst {
 						continue // marker
 					}
